@@ -129,6 +129,29 @@ def monitor(ex, final):
                 raise V(ex, 'message-on-unfinished-upgrade-socket', 'upg',
                         'session %d: MESSAGE %r written to an upgrade socket before the '
                         'handshake completed' % (s.ord, payload))
+    # nothing about an upgrade attempt may end a session: a disconnect event needs a cause
+    from props.c05 import explicit_causes
+    for s in ex.sessions:
+        evs = ex.events_for(s)
+        disc = [(t, a) for t, e, a in evs if e == 'disconnect']
+        if not disc or s.vanished or s.causes or explicit_causes(ex, s):
+            continue
+        if disc[0][0] > getattr(s, 't_open', 0) + ex.I + ex.T - 1e-6:
+            continue            # a heartbeat / poll / read timeout was possible by then (the
+                                # exact liveness bookkeeping is C07's business)
+        if any(p.t_start + ex.I + ex.T <= disc[0][0] + 1e-6 for p in s.polls):
+            continue
+        conns = [s.open_conn, s.main_ws, s.upg] + [a['conn'] for a in s.upg_attempts]
+        if any(c is not None and (c.peer_closed or c.failed) for c in conns):
+            continue            # the client closed / lost one of its sockets: a cause
+        if any(getattr(c, 'role', None) == 'raw' for c in ex.world.conns):
+            continue
+        raise V(ex, 'session-ended-without-cause', '%s|%s|after-%s' % (
+            disc[0][1], 'upgraded' if s.main_ws is not None else 'polling', last_att_class(s)),
+            'session %d got disconnect %r at %.3f although nothing ended it (upgrade attempts: '
+            '%s)' % (s.ord, disc[0][1], disc[0][0] - 2 ** 20,
+                     [att_class(a) + ('/2nd' if a.get('had_main') else '')
+                      for a in s.upg_attempts]))
     # transport() agrees with the model at quiet points
     n = len(ex.actions)
     if final or n in ex.quiet_points:
